@@ -684,6 +684,35 @@ theorem ninv_step {s : Node} {e : Event} (hs : NInv s) (hok : Ok s e) : NInv (st
             · intro l' ct' h'; cases h'
             · intro a' md' h'; rw [ha] at h'; cases h'
 
+  | closeCut c k =>
+    intro y hy
+    simp only [step, stepClose] at hy
+    split at hy
+    · exact hs y hy
+    · rename_i x hx
+      have hxi := hget hx
+      split at hy
+      · exact hs y hy
+      · split at hy
+        · simp only at hy
+          rcases List.mem_or_eq_of_mem_set hy with hy | rfl
+          · exact hs y hy
+          · exact ⟨hxi.gotNodup, hxi.gotAsked, hxi.pendAsked, hxi.pendFresh, hxi.pendNodup, hxi.latestPend, hxi.awaitPend⟩
+        · rename_i hna
+          simp only at hy
+          rcases List.mem_or_eq_of_mem_set hy with hy | rfl
+          · exact hs y hy
+          · have ha : x.awaiting = none := by
+              cases h : x.awaiting with
+              | none => rfl
+              | some p => simp [h] at hna
+            refine ⟨hxi.gotNodup, hxi.gotAsked, ?_, ?_, ?_, ?_, ?_⟩
+            · intro l' h'; cases h'
+            · intro l' h'; cases h'
+            · intro l' h'; cases h'
+            · intro l' ct' h'; cases h'
+            · intro a' md' h'; rw [ha] at h'; cases h'
+
 theorem ninv_init : NInv {} := by intro x hx; cases hx
 
 theorem ninv_run (evs : List Event) : ∀ {s : Node}, NInv s → OkRun s evs → NInv (runFrom s evs) := by
@@ -752,6 +781,7 @@ theorem okb_ok {s : Node} {e : Event} (h : okb s e = true) : Ok s e := by
   | unattached _ => trivial
   | leader _ => trivial
   | close _ => trivial
+  | closeCut _ _ => trivial
 
 theorem okRunB_ok : ∀ (evs : List Event) (s : Node), okRunB s evs = true → OkRun s evs
   | [], _, _ => trivial
